@@ -1,6 +1,7 @@
 """C02 - no valid frame is lost, duplicated or reordered on well-formed mixed input."""
 
 from . import shared as SH
+from . import C11 as SOCKET
 
 META = {
     "explanation": (
@@ -8,7 +9,7 @@ META = {
         "L = little-endian 16 bits, bit-provenance form); D3 NMEA skip through one line request, line-primitive contract; D4 RTCM3 length "
         "and read script (= C01-D2); D5 end-of-data discipline by interval analysis of every read-primitive call site (an empty result may mean "
         "EOF only for a non-empty request); D6 loop exits and the iterator protocol; D7 unknown message numbers are not errors (= C15-D4 stub path). "
-        "Inputs outside the property's class (noise containing sync bytes, incomplete foreign items) and the socket layer (C11) are not covered."
+        "The socket wrapper's FIFO and readline discipline (C11-D1..D6) is evaluated as a shared obligation because the property quantifies over socket-backed streams; inputs outside the property's class (noise containing sync bytes, incomplete foreign items) are not covered."
     ),
     "trusted": ["CPython ast parser", "sa/symeval.py, sa/domains.py", "oracle/frames.json", "assumption: stream.read(n) returns at most n bytes, readline() a line"],
 }
@@ -26,4 +27,6 @@ def run(eng, ctx):
     SH.loop_continuation(eng, ctx, "C02.D6", m)
     SH.read_returns(eng, ctx, "C01.D7", m)
     SH.stub_path(eng, ctx, "C15.D4")
+    # the property quantifies over socket-backed streams too: the wrapper's FIFO / readline discipline is a shared obligation
+    SOCKET.run(eng, ctx)
     ctx.instance("foreign-protocol branches", 2, 2)
